@@ -712,6 +712,17 @@ class HomeKitConnection:
                         self.name,
                     )
 
+                if (
+                    self._pair_verify_failed_hosts
+                    and len(self._pair_verify_failed_hosts) <= failed_host_count
+                ):
+                    # The remaining addresses did not work either, so forget
+                    # the exclusions: no advertised address may be skipped
+                    # forever because of a failure that may have been transient.
+                    # (The set may also have shrunk if it was reset while
+                    # choosing the addresses for this attempt.)
+                    self._pair_verify_failed_hosts.clear()
+
                 logger.debug(
                     "%s: Connecting to accessory failed: %s; Retrying in %i seconds",
                     self.name,
